@@ -533,6 +533,8 @@ class World:
         except asyncio.CancelledError:
             if task.cancelled() and 'cancelled' in meta['injected']:
                 status, res = 'cancelled', None
+            elif self.unexpected_cancel(tag):
+                status, res = 'cancelled', None
             else:
                 raise
         except Exception as e:
@@ -548,6 +550,9 @@ class World:
             self.check_error(tag, res)
         self.audit(f'after call {tag}')
         return status, res
+
+    def unexpected_cancel(self, tag):
+        return False
 
     def cancel_call(self, task, tag):
         if not task.done():
